@@ -14,7 +14,7 @@ from ..progmc.world import Prog
 
 P = "C14"
 COUNTS = [1, 2, 3, 5, 10, 40]
-FORMS = ["from", "attr", "import_as"]
+FORMS = ["from", "attr", "import_as", "ext_facade"]
 
 
 def make_spec(d, form):
@@ -26,7 +26,8 @@ def make_spec(d, form):
         {"name": "K", "module": main, "params": [], "body": [{"k": "call", "fn": "h", "form": form}, {"k": "ext", "fn": "xf"}, {"k": "ext", "var": "XV", "form": "attr"}]},
         {"name": "root", "module": main, "params": [], "body": [{"k": "keep", "path": "/u/k", "fn": "K", "args": []}]},
     ]
-    ext = {"funcs": [{"name": "xf", "module": "util", "params": [], "body": []},
+    ext = {"reexports": [[lib, "h"]] if form == "ext_facade" else [],
+           "funcs": [{"name": "xf", "module": "util", "params": [], "body": []},
                      {"name": "xd", "module": "util", "params": [], "datafn": "/x/d", "body": []}],
            "vars": [{"name": "XV", "module": "util", "values": ["1", "2"]}]}
     return {"id": f"ACC/d{d}/{form}", "key": f"depth={d}|form={form}", "modules": [lib, main],
